@@ -51,6 +51,9 @@ services:
     container_name: my-web-container
     cpu_count: 2
     cpu_percent: 50
+    cpus: 0.5
+    pids_limit: 100
+    scale: 1
     cpu_period: 10000
     cpu_quota: 5000
     cpu_rt_period: 1000
@@ -65,7 +68,7 @@ services:
       endpoint_mode: vip
       labels: {com.example.c: "3"}
       update_config: {parallelism: 2, delay: 10s, failure_action: continue, monitor: 60s, max_failure_ratio: 0.5, order: start-first}
-      rollback_config: {parallelism: 1, delay: 5s}
+      rollback_config: {parallelism: 1, delay: 5s, max_failure_ratio: 0.25}
       resources:
         limits: {cpus: "0.5", memory: 50M, pids: 100}
         reservations:
